@@ -52,6 +52,10 @@ def hand_scenarios():
     # metadata with an un-indented continuation line before further keys (the base override among them)
     out.append(("html", "R/a.txt", {"R/a.txt": F([T("A "), M("m.txt"), T(" end\n")]), "R/m.txt": dict(F([T("M "), M("leaf.txt"), T("\n")], True, "sub"), cont=1), "R/sub/leaf.txt": F([T("LEAFSUB")]), "R/leaf.txt": F([T("LEAFTOP")])}))
     out.append(("latex", "R/a.txt", {"R/a.txt": F([T("A "), M("m.txt"), T(" end\n")]), "R/m.txt": dict(F([T("M body\n")], True), cont=1)}))
+    # the base override as the first, or the only, key of the block -- in the top-level file and in an included one
+    for fi in (1, 2):
+        out.append(("html", "R/a.txt", {"R/a.txt": dict(F([T("A "), M("b.txt"), T(" end\n")], True, "sub"), first=fi), "R/sub/b.txt": F([T("Bsub")]), "R/b.txt": F([T("Btop")])}))
+        out.append(("html", "R/a.txt", {"R/a.txt": F([T("A "), M("m.txt"), T(" end\n")]), "R/m.txt": dict(F([T("M "), M("leaf.txt"), T("\n")], True, "sub"), first=fi), "R/sub/leaf.txt": F([T("LEAFSUB")]), "R/leaf.txt": F([T("LEAFTOP")])}))
     # included files with a large metadata block (its size must not matter): the base override comes after a long value
     for pad in (200, 3000, 4090, 5000, 9000):
         out.append(("html", "R/a.txt", {"R/a.txt": F([T("A "), M("big.txt"), T(" end\n")]), "R/big.txt": dict(F([T("B "), M("leaf.txt"), T("\n")], True, "sub"), pad=pad), "R/sub/leaf.txt": F([T("LEAFSUB")]), "R/leaf.txt": F([T("LEAFTOP")])}))
@@ -63,6 +67,8 @@ def hand_scenarios():
 def files_of(fs):
     out = {}
     for p, f in fs.items():
+        if f["meta"] and "first" in f:
+            out[p] = "Transclude Base: %s\n" % f["base"] + ("Title: t\n" if f["first"] == 2 else "") + "\n" + "".join(("{{%s}}" % a["s"]) if a["k"] == "m" else a["s"] for a in f["atoms"]); continue
         meta = ("Title: t\n" + ("Author: Jane\nDoe and others\nDate: 2020\n" if "cont" in f else "") + ("Abstract: %s\n" % ("x" * f["pad"]) if "pad" in f else "") + ("Transclude Base: %s\n" % f["base"] if f["base"] else "") + "\n") if f["meta"] else ""
         out[p] = meta + "".join(("{{%s}}" % a["s"]) if a["k"] == "m" else a["s"] for a in f["atoms"])
     return out
@@ -123,7 +129,7 @@ def run(tier, seed):
         def fixfs(fs, d):
             # the abstract file system as the spec sees it: symbolic root, absolute markers spelled with the real directory
             def ms(s): return (d + s) if s.startswith("/R/") else s.replace("@ABS@", d)
-            return {p.lstrip("/"): dict(atoms=[dict(k=a["k"], s=ms(a["s"]) if a["k"] == "m" else a["s"]) for a in f["atoms"]], meta=f["meta"], base=f["base"], **({"pad": f["pad"]} if "pad" in f else {}), **({"cont": f["cont"]} if "cont" in f else {})) for p, f in fs.items()}
+            return {p.lstrip("/"): dict(atoms=[dict(k=a["k"], s=ms(a["s"]) if a["k"] == "m" else a["s"]) for a in f["atoms"]], meta=f["meta"], base=f["base"], **({"pad": f["pad"]} if "pad" in f else {}), **({"cont": f["cont"]} if "cont" in f else {}), **({"first": f["first"]} if "first" in f else {})) for p, f in fs.items()}
         for (i, fmt, root, fs, d), seg, r in zip(cases, segs, res):
             trace.append(dict(e="reset"))
             fs_abs = {(os.path.join(d, p)): v for p, v in fixfs(fs, d).items()}
